@@ -186,9 +186,11 @@ def zone_types(G, with_zones=True):
 
 # shared spec vocabulary: who owns the records of a lookup result (proved in zone_lookup / cache, assumed by the stand-ins in local)
 ALL_NAMED_RS = "pub open spec fn all_named(s: Seq<ResourceRecord>, n: DomainName) -> bool { forall|x: int| 0 <= x < s.len() ==> (#[trigger] s[x]).name == n }\n"
-OWNERS_OK_RS = """// owners of what a zone lookup returns: answer records are owned by the query name; a referral's records all have the same owner (the delegation point)
+OWNERS_OK_RS = """// owners of what a zone lookup returns: answer records are owned by the query name; a referral's records all have the same owner
+// (the delegation point), which is the query name or an ancestor of it
 pub open spec fn owners_ok(r: ZoneResult, qname: DomainName) -> bool {
     &&& r is Answer ==> forall|i: int| 0 <= i < r->rrs@.len() ==> (#[trigger] r->rrs@[i]).name == qname
     &&& r is Delegation ==> forall|i: int| 0 <= i < r->ns_rrs@.len() ==> (#[trigger] r->ns_rrs@[i]).name == r->ns_rrs@[0].name
+    &&& r is Delegation && r->ns_rrs@.len() > 0 ==> is_suffix(r->ns_rrs@[0].name.labels@, qname.labels@)
 }
 """
